@@ -57,6 +57,9 @@ class C10(Check):
         for prof in ('default', 'junos', 'alu', 'sros'):
             out.append({'kind': 'huge', 'what': 'text', 'profile': prof, 'size': 11 * 1024 * 1024 if tier == 'thorough' else 10 * 1024 * 1024 + 5000})
             out.append({'kind': 'huge', 'what': 'depth', 'profile': prof, 'size': 300})
+            # as deep as the huge-tree parser of this libxml2 reads (its own ceiling is 2048): a reply transform may not give up earlier
+            for d in ((1500, 2040) if tier == 'quick' else (600, 1000, 1400, 1500, 1700, 2000, 2040)):
+                out.append({'kind': 'huge', 'what': 'depth', 'profile': prof, 'size': d})
         out.append({'kind': 'schema'})
         # over a real transport (Unix socket, both framings, huge-tree on and off): reply.xml must be the text the server framed,
         # XML declaration / leading comment / surrounding white space included (1.0: modulo surrounding white space)
@@ -297,7 +300,8 @@ class C10(Check):
             return None
         if case['kind'] == 'huge':
             if not io['ok']:
-                return ('C10:huge-tree-rejected:' + case['what'], 'reply with a huge %s failed to parse with huge_tree enabled (%s)' % (case['what'], io.get('exc')))
+                return ('C10:huge-tree-rejected:' + case['what'], 'reply with a huge %s (%d) failed to parse with huge_tree enabled on profile %s (%s)' % (
+                    case['what'], case['size'], case.get('profile'), io.get('exc')))
             return None
         if case['kind'] == 'huge-op':
             big = 'y' * case['size']
